@@ -21,7 +21,9 @@ CONSTANTS Plans       \* set of <<segments per line (>= 2), joiners, argument fo
 
 \* command words: on the safe list / not on it (the check confirms both against parser.GetSafeCmds)
 SafeCmds == {<<"o", "u", "t">>, <<"t", "r", "u", "e">>}
-UnsafeCmds == {<<"k", "i", "l", "l">>, <<"v", "x", "r", "m">>}
+\* zz\out: the command murex runs is `zzout` (a backslash before an ordinary character is that character), which is on no
+\* list; a tokeniser that drops what stands before the escape sees the safe name `out`
+UnsafeCmds == {<<"k", "i", "l", "l">>, <<"v", "x", "r", "m">>, <<"z", "z", "BS", "o", "u", "t">>}
 Cmds == SafeCmds \cup UnsafeCmds
 
 JoinerNames == {"|", "->", ";", "&&", "||", "=>", "?", "LF"}
